@@ -441,6 +441,13 @@ func (p *proxyConn) writeResponse(res *http.Response) error {
 		}
 	}
 
+	// An HTTP/1.0 client cannot parse a chunked body: fall back to a close-delimited one.
+	if !req.ProtoAtLeast(1, 1) && len(res.TransferEncoding) > 0 && !isHeaderOnlySpec(res) {
+		res.TransferEncoding = nil
+		res.ContentLength = -1
+		res.Close = true
+	}
+
 	if res.Close {
 		res.Header.Add("Connection", "close")
 	}
